@@ -193,7 +193,7 @@ PLAN = {
 }
 
 C05_Q = ["pair", "chain3p", "fanin1", "fanout", "fanoutshared", "fanout3shared", "diamondp", "ring2", "ringbreak"]
-C05_T = C05_Q + ["chain3t", "fanin2", "diamondt", "pullchain2", "ring3", "pullring", "pairL"]
+C05_T = C05_Q + ["chain3t", "fanin2", "diamondt", "pullchain2", "ring3", "pullring", "trigger", "staticin", "finisher", "pairL"]
 
 VACUITY = {"C04": ["NeverCirc"], "C03": ["NeverDone", "NeverFinishedComp"], "C01": [], "C02": []}
 VACUITY_FAMS = {"NeverCirc": ["ring2"], "NeverFinishedComp": ["finisher"]}
